@@ -824,6 +824,7 @@ func caseRound(s *hlib.Suite, r *hlib.Rng) {
 func main() {
 	cfg := hlib.ParseFlags()
 	s := hlib.NewSuite(cfg, "sql")
+	defer s.FinishOnPanic()
 	s.Header = "From QF Require Import Base.Prelude Base.CaseLib Model.Sql Corr.IOCorr.\nLocal Open Scope N_scope.\n"
 	s.CaseType = "sql_case"
 	s.CheckFn = "check_sql"
